@@ -4,7 +4,7 @@ VARIABLES l
 Ev == TraceLog[l]
 
 TReset == Ev.e = "Reset" /\ Setup("bg", 0)
-TSetup == Ev.e = "Setup" /\ Setup(Ev.mode, Ev.filter)
+TSetup == Ev.e = "Setup" /\ Ev.rc = 0 /\ Setup(Ev.mode, Ev.filter)
 TLogBegin == Ev.e = "LogBegin" /\ LogBegin(Ev.k, Ev.seq, Ev.level, Ev.plen, Ev.sl, Ev.on)
 TLogEnd == Ev.e = "LogEnd" /\ LogEnd(Ev.k, Ev.seq)
 TWrite == Ev.e = "Write" /\ Write(Ev)
@@ -21,10 +21,19 @@ TNoAlloc == /\ Ev.e = "NoAlloc"
             /\ IF Ev.level > Ev.filter THEN Ev.len = 0
                ELSE FixedBufferLine(Ev, 8192, Ev.level, Ev.plen, Ev.sl)
             /\ UNCHANGED lvars
+(* level names: case-insensitive, the six levels and NONE; the name read back is the canonical upper-case one *)
+LevelNames == <<"NONE", "FATAL", "ERROR", "WARN", "INFO", "DEBUG", "TRACE">>
+TLevelStr == /\ Ev.e = "LevelStr"
+             /\ IF Ev.upper \in {LevelNames[i] : i \in 1..7}
+                THEN Ev.rc = 0 /\ Ev.rc2 = 0 /\ LevelNames[Ev.level + 1] = Ev.upper /\ Ev.back = Ev.upper
+                ELSE Ev.rc # 0
+             /\ UNCHANGED lvars
+(* no logger installed: a log call is a no-op and the conditional getter finds nothing *)
+TNoLogger == Ev.e = "NoLogger" /\ Ev.cond = 0 /\ Ev.leak = 0 /\ UNCHANGED lvars
 TEnd == Ev.e = "End" /\ Ev.live = 0 /\ Ev.unjoined = 0 /\ (\A k \in Producers : pend[k] = <<>>) /\ UNCHANGED lvars
 
 TNext == l <= TraceLen /\ l' = l + 1 /\
          (TReset \/ TSetup \/ TLogBegin \/ TLogEnd \/ TWrite \/ TSetLevel \/ TCleanUpBegin \/ TCleanUpRet \/ TFmt
-            \/ TNoAlloc \/ TEnd)
+            \/ TNoAlloc \/ TLevelStr \/ TNoLogger \/ TEnd)
 TSpec == (l = 1 /\ LInit) /\ [][TNext]_<<lvars, l>>
 =============================================================================
